@@ -347,6 +347,8 @@ class CFGBuilder(AstVisitor[BB | None]):
             raise GuppyError(UnsupportedError(span, "`as` expression", singular=True))
 
         e = node.context_expr
+        if isinstance(e, ast.Call) and e.keywords:
+            raise GuppyError(UnsupportedError(e.keywords[0], "Keyword arguments"))
         modifier: Modifier
         match e:
             case ast.Name(id="dagger"):
